@@ -2,11 +2,15 @@
 (***************************************************************************)
 (* Composition of the components specified separately:                      *)
 (*   Engine (order lifecycle of OrderLifecycle.tla, on kinds)               *)
-(*     --ExecutionRequest-->  request channel of one exchange               *)
-(*     --> ExecutionManager (ExecManager.tla: accept, response or timeout,  *)
-(*         exactly one account event per accepted request)                  *)
-(*     --AccountEvent--> feed FIFO --> Engine::process                      *)
-(* plus unsolicited exchange reports (fills / cancellations by the venue).  *)
+(*     --ExecutionRequest-->  request channel of the ORDER'S exchange       *)
+(*     --> that exchange's ExecutionManager (ExecManager.tla: accept,       *)
+(*         response or timeout, exactly one account event per request)      *)
+(*     --AccountEvent (stamped with that exchange)--> merged feed FIFO      *)
+(*     --> Engine::process                                                  *)
+(* plus unsolicited exchange reports (fills / cancellations by the venue)   *)
+(* and the death of an exchange's execution link (one disconnect notice,    *)
+(* the engine marks that exchange's account link - hence global             *)
+(* connectivity - unhealthy, the other exchanges' links are untouched).     *)
 (*                                                                         *)
 (* Purpose: the closing sentence of C07 - "an order the engine shows as in  *)
 (* flight is always eventually resolved" - is a LIVENESS property of the    *)
@@ -22,71 +26,108 @@
 EXTENDS Integers, Sequences, FiniteSets, TLC
 
 CONSTANTS CID,        \* client order ids
-          MaxSends    \* bound on requests the engine may send per id (keeps the model finite)
+          EXCH,       \* exchanges, each with its own request channel, execution manager and client
+          MaxSends,   \* bound on requests the engine may send per id (keeps the model finite)
+          MaxKills    \* bound on execution links the environment may kill
+
+NoExch == "none"
 
 VARIABLES orders,     \* [CID -> {"U","OIF","Open","CIFn","CIFo"}]   engine view
-          chan,       \* request channel engine -> execution manager (FIFO)
-          pending,    \* requests accepted by the manager, awaiting response or timeout
-          feed,       \* account events on their way to the engine (FIFO)
+          home,       \* [CID -> EXCH \cup {NoExch}]  the exchange of the instrument the order is for
+          chan,       \* [EXCH -> request channel engine -> that exchange's execution manager (FIFO)]
+          pending,    \* requests accepted by a manager, awaiting response or timeout
+          feed,       \* account-stream events on their way to the engine (FIFO, all exchanges merged)
           sends,      \* [CID -> Nat] requests sent so far per id
-          answered    \* ghost: number of account events produced per request serial
+          answered,   \* ghost: number of account events produced per request
+          link,       \* [EXCH -> {"connecting","up","dead"}]  the exchange's execution link (environment)
+          conn        \* [EXCH -> {"up","down"}]  engine view: health of the exchange's account link
+                      \*   (starts "down": Health::Reconnecting until the first account item arrives)
 
-vars == <<orders, chan, pending, feed, sends, answered>>
+vars == <<orders, home, chan, pending, feed, sends, answered, link, conn>>
 
-Req(k, c, n) == [k |-> k, c |-> c, n |-> n]              \* n = serial number of the request
+\* n = serial number of the request, x = the exchange whose link carries it
+Req(k, c, n, x) == [k |-> k, c |-> c, n |-> n, x |-> x]
 InFlight(c) == orders[c] \in {"OIF", "CIFn", "CIFo"}
 
 Init == /\ orders = [c \in CID |-> "U"]
-        /\ chan = <<>> /\ pending = {} /\ feed = <<>>
+        /\ home = [c \in CID |-> NoExch]
+        /\ chan = [x \in EXCH |-> <<>>] /\ pending = {} /\ feed = <<>>
         /\ sends = [c \in CID |-> 0]
         /\ answered = [r \in {} |-> 0]
+        /\ link = [x \in EXCH |-> "connecting"]
+        /\ conn = [x \in EXCH |-> "down"]
 
 Serial(c) == sends[c] + 1
 
-(* ---- engine: strategy / commands send requests and mark them in flight (C03) ---- *)
-EngineSendOpen(c) ==
+(* ---- engine: strategy / commands send requests and mark them in flight (C03); the request ---- *)
+(* ---- travels on the channel of the exchange the order's instrument belongs to (C04)        ---- *)
+EngineSendOpen(c, x) ==
   /\ orders[c] = "U" /\ sends[c] < MaxSends
+  /\ home[c] \in {NoExch, x} /\ link[x] # "dead"
+  /\ home' = [home EXCEPT ![c] = x]
   /\ orders' = [orders EXCEPT ![c] = "OIF"]
-  /\ chan' = Append(chan, Req("open", c, Serial(c)))
+  /\ chan' = [chan EXCEPT ![x] = Append(@, Req("open", c, Serial(c), x))]
   /\ sends' = [sends EXCEPT ![c] = @ + 1]
-  /\ UNCHANGED <<pending, feed, answered>>
+  /\ UNCHANGED <<pending, feed, answered, link, conn>>
 
 \* (a cancel may be sent for an order that has meanwhile been resolved: the request still travels,
 \*  the engine's view of an untracked or already-cancelling order does not change)
 EngineSendCancel(c) ==
-  /\ sends[c] > 0 /\ sends[c] < MaxSends
+  /\ sends[c] > 0 /\ sends[c] < MaxSends /\ link[home[c]] # "dead"
   /\ orders' = [orders EXCEPT ![c] = CASE @ = "OIF" -> "CIFn" [] @ = "Open" -> "CIFo" [] OTHER -> @]
-  /\ chan' = Append(chan, Req("cancel", c, Serial(c)))
+  /\ chan' = [chan EXCEPT ![home[c]] = Append(@, Req("cancel", c, Serial(c), home[c]))]
   /\ sends' = [sends EXCEPT ![c] = @ + 1]
-  /\ UNCHANGED <<pending, feed, answered>>
+  /\ UNCHANGED <<home, pending, feed, answered, link, conn>>
 
-(* ---- execution manager (C07): accept, then exactly one of response / timeout ---- *)
-MgrAccept ==
-  /\ chan # <<>>
-  /\ pending' = pending \cup {Head(chan)}
-  /\ chan' = Tail(chan)
-  /\ UNCHANGED <<orders, feed, sends, answered>>
+(* ---- execution manager of exchange x (C07): accept, then exactly one of response / timeout ---- *)
+\* (the manager starts serving requests once its client is connected: ExecutionManager::init
+\*  forwards the client's account snapshot first)
+MgrAccept(x) ==
+  /\ chan[x] # <<>> /\ link[x] # "connecting"
+  /\ pending' = pending \cup {Head(chan[x])}
+  /\ chan' = [chan EXCEPT ![x] = Tail(@)]
+  /\ UNCHANGED <<orders, home, feed, sends, answered, link, conn>>
 
-Emit(r, ev) == /\ pending' = pending \ {r}
-               /\ feed' = Append(feed, ev)
-               /\ answered' = (r :> 1) @@ answered
-               /\ UNCHANGED <<orders, chan, sends>>
+\* the account event carries the exchange of the manager that produced it
+Emit(r, kind) == /\ pending' = pending \ {r}
+                 /\ feed' = Append(feed, [t |-> "item", c |-> r.c, kind |-> kind, x |-> r.x])
+                 /\ answered' = (r :> 1) @@ answered
+                 /\ UNCHANGED <<orders, home, chan, sends, link, conn>>
 
 \* the client's own answer: open -> open on the book / filled / rejected ; cancel -> ok / err
 ClientResponds(r) ==
   /\ r \in pending
   /\ \E res \in (IF r.k = "open" THEN {"open_ok", "open_filled", "open_failed"} ELSE {"cancel_ok", "cancel_err"}) :
-        Emit(r, [c |-> r.c, kind |-> res])
+        Emit(r, res)
 \* no answer before the deadline: a timeout failure
 TimeoutFires(r) ==
   /\ r \in pending
-  /\ Emit(r, [c |-> r.c, kind |-> IF r.k = "open" THEN "open_failed" ELSE "cancel_err"])
+  /\ Emit(r, IF r.k = "open" THEN "open_failed" ELSE "cancel_err")
 
 (* ---- the venue reports on its own: an open order fills or is cancelled there ---- *)
 VenueReport(c) ==
-  /\ orders[c] \in {"Open", "CIFo"} /\ Len(feed) < 2
-  /\ \E k \in {"open_filled", "venue_cancelled"} : feed' = Append(feed, [c |-> c, kind |-> k])
-  /\ UNCHANGED <<orders, chan, pending, sends, answered>>
+  /\ orders[c] \in {"Open", "CIFo"} /\ Len(feed) < 2 /\ link[home[c]] # "dead"
+  /\ \E k \in {"open_filled", "venue_cancelled"} :
+        feed' = Append(feed, [t |-> "item", c |-> c, kind |-> k, x |-> home[c]])
+  /\ UNCHANGED <<orders, home, chan, pending, sends, answered, link, conn>>
+
+(* ---- the exchange's client connects: its first message is a full account snapshot ---- *)
+Connect(x) ==
+  /\ link[x] = "connecting"
+  /\ link' = [link EXCEPT ![x] = "up"]
+  /\ feed' = Append(feed, [t |-> "snap", c |-> "", kind |-> "", x |-> x])
+  /\ UNCHANGED <<orders, home, chan, pending, sends, answered, conn>>
+
+(* ---- an exchange's execution link dies (its task ends / is killed) once nothing is outstanding ---- *)
+(* ---- on it: the account stream delivers exactly ONE disconnect notice naming that exchange      ---- *)
+Quiet(x) == chan[x] = <<>> /\ \A r \in pending : r.x # x
+KillLink(x) ==
+  /\ link[x] = "up" /\ Quiet(x)
+  /\ \A j \in 1..Len(feed) : feed[j].x # x          \* (and once its items have been consumed)
+  /\ Cardinality({y \in EXCH : link[y] = "dead"}) < MaxKills
+  /\ link' = [link EXCEPT ![x] = "dead"]
+  /\ feed' = Append(feed, [t |-> "notice", c |-> "", kind |-> "", x |-> x])
+  /\ UNCHANGED <<orders, home, chan, pending, sends, answered, conn>>
 
 (* ---- engine processes one account event (C01's transitions on kinds) ---- *)
 After(k, ev) ==
@@ -95,33 +136,58 @@ After(k, ev) ==
     [] ev = "cancel_ok"    -> "U"
     [] ev = "cancel_err"   -> (CASE k = "CIFo" -> "Open" [] k = "CIFn" -> "U" [] OTHER -> k)
 
+\* an account item: C01's transition, and the item proves the link alive (C14: healthy again);
+\* a disconnect notice: that exchange's account link is marked down, nothing else changes
 EngineProcess ==
   /\ feed # <<>>
-  /\ LET e == Head(feed) IN orders' = [orders EXCEPT ![e.c] = After(@, e.kind)]
+  /\ LET e == Head(feed) IN
+       CASE e.t = "item" -> /\ orders' = [orders EXCEPT ![e.c] = After(@, e.kind)]
+                            /\ conn' = [conn EXCEPT ![e.x] = "up"]
+         [] e.t = "snap" -> /\ conn' = [conn EXCEPT ![e.x] = "up"]
+                            /\ UNCHANGED orders
+         [] OTHER        -> /\ conn' = [conn EXCEPT ![e.x] = "down"]
+                            /\ UNCHANGED orders
   /\ feed' = Tail(feed)
-  /\ UNCHANGED <<chan, pending, sends, answered>>
+  /\ UNCHANGED <<home, chan, pending, sends, answered, link>>
 
-Next == \/ \E c \in CID : EngineSendOpen(c) \/ EngineSendCancel(c) \/ VenueReport(c)
-        \/ MgrAccept
+Next == \/ \E c \in CID : (\E x \in EXCH : EngineSendOpen(c, x)) \/ EngineSendCancel(c) \/ VenueReport(c)
+        \/ \E x \in EXCH : MgrAccept(x) \/ Connect(x) \/ KillLink(x)
         \/ \E r \in pending : ClientResponds(r) \/ TimeoutFires(r)
         \/ EngineProcess
 
 Answer(r) == ClientResponds(r) \/ TimeoutFires(r)
 
 Spec == /\ Init /\ [][Next]_vars
-        /\ WF_vars(MgrAccept)
+        /\ \A x \in EXCH : WF_vars(MgrAccept(x)) /\ WF_vars(Connect(x))
         /\ WF_vars(EngineProcess)
-        /\ \A c \in CID, n \in 1..MaxSends, k \in {"open", "cancel"} : WF_vars(Answer(Req(k, c, n)))
+        /\ \A c \in CID, n \in 1..MaxSends, k \in {"open", "cancel"}, x \in EXCH : WF_vars(Answer(Req(k, c, n, x)))
 
 \* the same system without fairness of the response/timeout race: used only to show that
 \* `Resolved` is not vacuous (TLC must find a counterexample: a request that is never answered)
-SpecUnfairAnswer == Init /\ [][Next]_vars /\ WF_vars(MgrAccept) /\ WF_vars(EngineProcess)
+SpecUnfairAnswer == Init /\ [][Next]_vars /\ (\A x \in EXCH : WF_vars(MgrAccept(x))) /\ WF_vars(EngineProcess)
 
 (***************************************************************************)
 (* Properties                                                               *)
 (***************************************************************************)
 TypeOK == /\ orders \in [CID -> {"U", "OIF", "Open", "CIFn", "CIFo"}]
-          /\ \A r \in pending : r.k \in {"open", "cancel"}
+          /\ home \in [CID -> EXCH \cup {NoExch}]
+          /\ \A r \in pending : r.k \in {"open", "cancel"} /\ r.x \in EXCH
+          /\ link \in [EXCH -> {"connecting", "up", "dead"}] /\ conn \in [EXCH -> {"up", "down"}]
+
+\* C04 at the level of the composition: a request only ever travels on, is accepted by, and is
+\* answered in the name of the exchange its order belongs to
+Routed == /\ \A x \in EXCH : \A j \in 1..Len(chan[x]) : chan[x][j].x = x /\ home[chan[x][j].c] = x
+          /\ \A r \in pending : home[r.c] = r.x
+          /\ \A j \in 1..Len(feed) : feed[j].t = "item" => home[feed[j].c] = feed[j].x
+
+\* C14 at the level of the composition: once the feed has drained, the engine shows an exchange's
+\* account link healthy exactly when that link is up, and global health is the conjunction
+GlobalHealthy == \A x \in EXCH : conn[x] = "up"
+ConnMatchesLinks == feed = <<>> => \A x \in EXCH : (conn[x] = "up") <=> (link[x] = "up")
+\* every link that comes up is seen healthy
+Synced == \A x \in EXCH : (link[x] = "up") ~> (conn[x] = "up" \/ link[x] = "dead")
+\* a dead link is noticed: its disconnect notice is eventually processed
+Noticed == \A x \in EXCH : (link[x] = "dead") ~> (conn[x] = "down")
 
 \* never two account events for one request (C07 AtMostOne, by construction of Emit)
 AtMostOnce == \A r \in DOMAIN answered : answered[r] = 1
@@ -129,7 +195,7 @@ AtMostOnce == \A r \in DOMAIN answered : answered[r] = 1
 \* an in-flight marker always has a request on its way or an answer on its way
 InFlightBacked ==
   \A c \in CID : InFlight(c) =>
-     \/ \E j \in 1..Len(chan) : chan[j].c = c
+     \/ \E x \in EXCH : \E j \in 1..Len(chan[x]) : chan[x][j].c = c
      \/ \E r \in pending : r.c = c
      \/ \E j \in 1..Len(feed) : feed[j].c = c
 
